@@ -119,6 +119,53 @@ func VerifFramingProbe(sizes []int, fill func(n int) []byte) ([]VerifFrameResult
 		}
 		out = append(out, res)
 	}
+	// frames whose bytes reach the receiver in pieces (the 6-byte header split after k bytes, a pause, then the rest;
+	// the body in two pieces as well): what a congested or re-packetised path does to a stream
+	for i, n := range sizes {
+		if n < 1 || n > 1<<20 || i%2 == 1 {
+			continue
+		}
+		for _, k := range []int{1, 3, 5} {
+			res := VerifFrameResult{Case: "fragmented-frame", Size: n}
+			data := fill(n)
+			header := []byte{TransportMessageVersion, 0, 0, 0, 0, 0}
+			binary.BigEndian.PutUint32(header[2:], uint32(len(data)))
+			type rcv struct {
+				m   *TransportMessage
+				err error
+			}
+			rc := make(chan rcv, 1)
+			go func() {
+				m, err := server.Receive()
+				rc <- rcv{m, err}
+			}()
+			_ = consumer.stream.SetWriteDeadline(time.Now().Add(WriteDeadline))
+			pieces := [][]byte{header[:k], header[k:], data[:len(data)/2], data[len(data)/2:]}
+			for pi, piece := range pieces {
+				if len(piece) == 0 {
+					continue
+				}
+				if _, werr := consumer.stream.Write(piece); werr != nil {
+					res.SendErr = werr.Error()
+					break
+				}
+				if pi < len(pieces)-1 {
+					time.Sleep(40 * time.Millisecond)
+				}
+			}
+			got := <-rc
+			if got.err != nil {
+				res.RecvErr = got.err.Error()
+			} else {
+				res.Equal = int(got.m.Size) == len(data) && bytes.Equal(got.m.Data, data) && got.m.Version == TransportMessageVersion
+			}
+			out = append(out, res)
+			if got.err != nil {
+				// the receiver lost frame sync: nothing more can be learnt on this stream
+				return out, nil
+			}
+		}
+	}
 	// forged headers: announce more than the maximum, send no body
 	for _, announced := range []uint32{TransportMessageMaxSize + 1, TransportMessageMaxSize * 2, 1 << 31, 0xffffffff} {
 		res := VerifFrameResult{Case: "forged-header", Size: int(announced)}
